@@ -312,7 +312,8 @@ def _check_draw(case, params):
         for n in range(N):
             size = sizes[n]
             W = min(float(limit), size / 2.0)
-            tol = 1e-4 * size
+            # (the library shrinks the half-width by the machine epsilon of the feature dtype: 2^-10 for float16)
+            tol = 1e-4 * size + (1e-3 if case.get("feat_dtype") == "float16" else 0.0)
             c, s = float(x0[n]), float(x[n])
             require(W - tol <= c <= size - W + tol, "%s warp centre outside [W, size - W] (n=%d, size=%d, W=%g)" % (name, n, size, W),
                     c, [W, size - W])
@@ -545,6 +546,14 @@ def _draw_strategy(injected):
         @st.composite
         def build(draw):
             case = draw(_base(tier, big_dims=("T", "N", "F", "MT", "MF"), garbage=True))
+            # the drawn parameters must not depend on the precision of the features: half-precision features with
+            # lengths that half precision cannot represent (above 2048)
+            # (bfloat16 features are rejected by the library with a RuntimeError: not generated)
+            fd = draw(weighted((5, st.just("float32")), (2, st.just("float16"))))
+            if fd != "float32":
+                case["feat_dtype"] = fd
+                if fd == "float16" and case.get("big") == "T":
+                    case["T"] = draw(st.sampled_from([2051, 2055, 4099]))
             case.update({"cfg": draw(_cfg(case["T"], case["F"])),
                          "route": draw(st.sampled_from(["module", "functional"])),
                          "fa": draw(st.integers(1, 50)), "fb": draw(st.integers(0, 50))})
@@ -563,10 +572,18 @@ def _draw_strategy(injected):
 
 
 def _draw_check(case):
+    import torch
+
     feats = _feats(case)
     lengths = _lengths(case)
+    if case.get("feat_dtype"):
+        feats = feats.to(getattr(torch, case["feat_dtype"]))
     params = _draw(case, feats, lengths)
     classes = _check_draw(case, params)
+    if case.get("feat_dtype"):
+        classes.add("feats_" + case["feat_dtype"])
+        if any(L > 2048 and float(torch.tensor(float(L)).to(feats.dtype)) > L for L in _eff_lengths(case)):
+            classes.add("length_rounds_up_in_feature_precision")
     if case.get("lengths") is None:
         classes.add("lengths_omitted")
     if any(L < case["T"] for L in _eff_lengths(case)):
@@ -576,17 +593,18 @@ def _draw_check(case):
 
 
 subcheck("C08", "draw_bounds", _draw_strategy(False), 1500, 40000,
-         doc="generated (N,T,F), lengths, limits from {0,1,small,>size/2,>size}, proportions incl. 0 and 1; real generator seeded from the case; every drawn tensor against the documented caps (exact rational arithmetic); 1 case in 6 takes T, N, F or a number of masks from the thresholds 15..2049; features / lengths also as offset, permuted, strided, expanded views; non-finite or huge garbage past the lengths",
+         doc="generated (N,T,F), lengths, limits from {0,1,small,>size/2,>size}, proportions incl. 0 and 1; real generator seeded from the case; every drawn tensor against the documented caps (exact rational arithmetic); 1 case in 6 takes T, N, F or a number of masks from the thresholds 15..2049; features / lengths also as offset, permuted, strided, expanded views; non-finite or huge garbage past the lengths; 2 cases in 7 with float16 features (T up to 4099) whose lengths the feature precision cannot represent",
          required_classes=["time_mask_positive", "freq_mask_positive", "time_warp_limited_by_half_size",
                            "time_mask_count_limited", "time_mask_width_limited_by_proportion", "some_length_below_T",
                            "big_T", "big_N", "big_F", "big_MT", "big_MF", "feats_offset", "feats_strided",
-                           "lengths_offset", "lengths_strided", "garbage_past_length"])(_draw_check)
+                           "lengths_offset", "lengths_strided", "garbage_past_length", "feats_float16",
+                           "length_rounds_up_in_feature_precision"])(_draw_check)
 
 subcheck("C08", "draw_bounds_injected", _draw_strategy(True), 1500, 40000,
          doc="same oracle with torch.rand replaced by scripted uniforms k/2^24 biased to 0, 2^-24, 1/2, 1-2^-24",
          required_classes=["time_mask_positive", "freq_mask_positive", "time_mask_at_cap", "time_mask_touches_end",
                            "freq_mask_at_cap", "time_warp_limited_by_half_size", "big_T", "big_N", "big_MT",
-                           "lengths_strided", "garbage_past_length"])(_draw_check)
+                           "lengths_strided", "garbage_past_length", "length_rounds_up_in_feature_precision"])(_draw_check)
 
 
 # ------------------------------------------------------------------ masking is exact
